@@ -40,7 +40,8 @@
 //                                       setParametersValues
 //   w.fire                           -> getValue() ; p.. ; fp..   (fireParameterChanged(empty list), called directly)
 //   w.en which yn                    -> wrapper's getter, function's two switches
-//   w.d1 i | w.d2 i j                -> value
+//   w.d1 i | w.d21 i | w.d2 i j      -> value   (w.d21: getSecondOrderDerivative(p_i); w.d2: the two-argument
+//                                       overload getSecondOrderDerivative(p_i, p_j), also when i == j)
 //   w.fd i h                         -> f- f0 f+ a- a0 a+ b0   (a = wrapper d1_i, b0 = wrapper d2_ii; class 2)
 //   w.fd1 i h                        -> f- f0 f+ a- a0 a+ 0    (class >= 1)
 //   w.fdx i j h                      -> a- a+ c0                (a = wrapper d1_i at x_j -/+ h, c0 = wrapper d2_ij)
@@ -379,11 +380,12 @@ static std::string doW(State& s, const Toks& t)
     return "bad-op";
   }
   if (o == "w.d1") { size_t i = toU(t[1]); if (!w1 || i >= n) return "bad-op"; return hx(w1->getFirstOrderDerivative(pname(fn, i))); }
+  if (o == "w.d21") { size_t i = toU(t[1]); if (!w2 || i >= n) return "bad-op"; return hx(w2->getSecondOrderDerivative(pname(fn, i))); }
   if (o == "w.d2")
   {
     size_t i = toU(t[1]), j = toU(t[2]);
     if (!w2 || i >= n || j >= n) return "bad-op";
-    return hx(i == j ? w2->getSecondOrderDerivative(pname(fn, i)) : w2->getSecondOrderDerivative(pname(fn, i), pname(fn, j)));
+    return hx(w2->getSecondOrderDerivative(pname(fn, i), pname(fn, j)));   // the two-argument overload, also for i == j
   }
   if (o == "w.fd" || o == "w.fd1")
   {
